@@ -7,6 +7,7 @@ limit within the bounds, and emits every behaviour with CoverSpec's value per pi
 replayed through the real command line entry point with the pool delivering in that order, and
 the saved .npy is compared bit for bit (after the same dtype cast).
 """
+import contextlib
 import os
 import random
 import sys
@@ -41,12 +42,14 @@ def run_whip(argv):
         sys.argv = old
 
 
-def run_scenario(chk, sc, cfgseed, dtype, axes, flavour="sched", workers=None):
+def run_scenario(chk, sc, cfgseed, dtype, axes, flavour="sched", workers=None, crowd=False):
+    """crowd: every cell (or pair of cells) is a box of its own and all boxes of a level sit in ONE binary file, while the process
+    may hold only a few descriptors more than it has: hundreds of boxes per file under a descriptor limit."""
     rng = random.Random(cfgseed)
     cfg_ = gamma.Config.draw(rng, ndims=3, payload="tame", numfmt="g6" if cfgseed % 4 == 0 else "repr")
     lat = lattice.Lattice(sc["mesh"], sc["n1"], sc["n2"], axes=axes, ext0=[3, 4, 2, 5][cfgseed % 4], ext_cut=(cfgseed // 4) % 3 != 0,
-                          tile=2 if cfgseed % 7 == 3 else None)       # one in seven: the same cells in many small boxes
-    nfiles = sc["nfiles"]
+                          tile=(1 + cfgseed % 2) if crowd else (2 if cfgseed % 7 == 3 else None))       # one in seven: the same cells in many small boxes
+    nfiles = [1] * len(sc["nfiles"]) if crowd else sc["nfiles"]
     # boxes dealt over the files round-robin, from the first file or from the last one: with an uneven deal the files with
     # the most boxes (the largest, read first) are then the first-named or the last-named ones
     rev = cfgseed % 2 == 1
@@ -76,11 +79,14 @@ def run_scenario(chk, sc, cfgseed, dtype, axes, flavour="sched", workers=None):
     plan, pos = {}, 0
     for l in range(lim + 1):
         n = nfiles[l]
-        plan[l + 1] = sc["sched"][pos:pos + n]
+        plan[l + 1] = [1] if crowd else sc["sched"][pos:pos + n]
         pos += n
     argv = ["-v", ap["fields"][fi - 1], "-o", out, "-d", dtype, "-y", "-l", str(lim), spell.of(src, cfgseed)[0]]
     try:
-        with shims.pool_shim(shims.Scheduler(plan=plan, workers=workers), flavour), core.quiet():
+        # every other run may hold only a few descriptors more than it has at the start (shims.low_fd_limit): the number of open
+        # files must not grow with the number of boxes (tiled meshes put dozens to hundreds of boxes in one file)
+        with shims.pool_shim(shims.Scheduler(plan=plan, workers=workers), flavour), core.quiet(), \
+                (shims.low_fd_limit(24) if (crowd or cfgseed % 2 == 1) and flavour == "sched" else contextlib.nullcontext()):
             run_whip(argv)
     except SystemExit as e:
         return "whip exited with %r" % (e.code,)
@@ -137,7 +143,7 @@ def _run(chk, replay):
     chk.assumptions = ["third axis extruded with 2-5 level-0 cells, cut into two slabs two times out of three"]
     if replay:
         s = replay["scenario"]
-        v = run_scenario(chk, s["sc"], s["cfgseed"], s["dtype"], tuple(s["axes"]))
+        v = run_scenario(chk, s["sc"], s["cfgseed"], s["dtype"], tuple(s["axes"]), crowd=bool(s.get("crowd")))
         chk.executed("replay")
         if v:
             chk.violation(s["sigs"], v, s)
@@ -150,6 +156,16 @@ def _run(chk, replay):
         scenarios += r.emitted
     if not scenarios:
         raise core.MachineryError("TLC emitted no behaviours")
+    # descriptors as a bounded resource of a per-file reader task (Descriptors.tla): one handle per FILE whatever the number of
+    # boxes, and an error while reading a box is not the end of the file; bound to the code by the crowd runs below (hundreds of
+    # boxes in one file under shims.low_fd_limit)
+    for nb, lim_ in ((6, 3), (4, 1)):
+        r = chk.add_tlc(tlc.run("Descriptors", {"SPECIFICATION": "Spec", "CONSTANTS": {"NBoxes": nb, "Limit": lim_, "HandlePolicy": '"per-file"',
+                                                                                    "OnError": '"propagate"'},
+                                                "INVARIANTS": ["AllOrError", "BoundedHandles", "Succeeds"], "PROPERTIES": ["Terminates"]},
+                                workers=1, timeout=120), "descriptors of a per-file reader (%d boxes, limit %d)" % (nb, lim_))
+        if r.violated:
+            chk.note_drift("TLC: %s violated in Descriptors.tla" % r.violated)
     cap = 500 if chk.tier == "quick" else 8000
     chosen = util.select(scenarios, cap, chk.rng)
     chk.exhaustive = len(chosen) == len(scenarios)
@@ -159,11 +175,12 @@ def _run(chk, replay):
         dtype = ["float64", "float32", "float64", "int32", "float32", "int16", "float64", "float16", "float32", "int64"][i % 10]
         axes = perms[i % 6]
         cfgseed = chk.rng.randrange(1 << 30)
-        v = run_scenario(chk, sc, cfgseed, dtype, axes)
-        sigs = util.sig_str(sc["sig"], dtype, axes)
+        crowd = i % 25 == 7          # hundreds of boxes in one file per level, under a descriptor limit
+        v = run_scenario(chk, sc, cfgseed, dtype, axes, crowd=crowd)
+        sigs = util.sig_str(sc["sig"], dtype, axes, *(["crowd"] if crowd else []))
         triv = sc["sig"][0] == 1 and sc["sig"][2][0][1] == 1
         chk.executed(sigs, not triv, sample={"mesh": sc["mesh"], "nfiles": sc["nfiles"], "lim": sc["lim"],
                                              "sched": sc["sched"], "dtype": dtype, "axes": axes})
         chk.traces += 1
         if v:
-            chk.violation(sigs, v, {"sc": sc, "cfgseed": cfgseed, "dtype": dtype, "axes": axes, "sigs": sigs})
+            chk.violation(sigs, v, {"sc": sc, "cfgseed": cfgseed, "dtype": dtype, "axes": axes, "sigs": sigs, "crowd": crowd})
